@@ -941,3 +941,369 @@ Proof.
   rewrite filter_app. cbn [filter ev_inter negb]. unfold msg_ctl_events_c.
   match goal with |- filter _ (map ?g ?x) ++ _ = _ => induction x as [|y ys IHy]; [reflexivity|exact IHy] end.
 Qed.
+
+(* ################################################################## only the FIRST message need be well-formed
+   The invariant lemmas of ReaderFreshProofs.v ask that the spec accepts the WHOLE remaining stream.  For
+   Discard (and the Reads before it) only the frames up to the end of the current message matter.  [Pm evs sr]:
+   the spec result [sr], computed from accumulated events [evs], is clean OR has emitted a further event that is
+   not an interleaved control frame — the current message was completed without breaking a rule; what comes
+   after it may break rules or be cut.  read_stepP2 / discardP2 are read_stepP / discardP with that hypothesis. *)
+Definition cnt (l : list event) : nat := length (filter (fun e => negb (ev_inter e)) l).
+Definition Pm (evs : list event) (sr : spec_result) : Prop :=
+  sr_out sr = OClean \/ (cnt evs < cnt (sr_events sr))%nat.
+
+Lemma Pm_stop evs pt out : out <> OClean -> ~ Pm evs (mkSR evs pt out).
+Proof. intros H [X|X]; cbn [sr_out sr_events] in X; [contradiction|lia]. Qed.
+Lemma cnt_inter evs mid : all_inter mid -> cnt (evs ++ mid) = cnt evs.
+Proof. intros H. unfold cnt. rewrite filter_app, (filter_all_inter _ H), app_nil_r. reflexivity. Qed.
+Lemma Pm_inter evs mid sr : all_inter mid -> Pm evs sr -> Pm (evs ++ mid) sr.
+Proof. intros H [X|X]; [left; exact X|right; rewrite (cnt_inter _ _ H); exact X]. Qed.
+
+Lemma read_stepP2 c st lg rest r kk : wf_cfg c -> minv c st lg rest r -> 0 < kk ->
+  (exists d r' st' mid rest', reader_read kk r = ((d, None), r') /\ minv c st' (lg ++ mid) rest' r' /\
+      m_op (mmsg st') = m_op (mmsg st) /\ m_comp (mmsg st') = m_comp (mmsg st) /\
+      (mu r' < mu r)%nat /\ all_inter mid /\ st_rest st' rest' = st_rest st rest /\
+      (forall m0, st' = MBet m0 -> r_rawN r' = 0) /\
+      forall k evs, exists k', mspec c k st evs rest = mspec c k' st' (evs ++ mid) rest') \/
+  (exists d r', reader_read kk r = ((d, Some (RIo EEOF)), r') /\ Bnd c None lg (st_rest st rest) r' /\
+      (r_compressed r' = m_comp (mmsg st) \/ spec_control (m_op (mmsg st)) = true) /\
+      (length (flat (r_src r')) <= length (flat (r_src r)))%nat) \/
+  (exists d err r', reader_read kk r = ((d, Some err), r') /\ err <> RIo EEOF /\
+      forall k evs, exists pt out, mspec c k st evs rest = mkSR evs pt out /\ out <> OClean).
+Proof.
+  intros Hc Hinv Hk. destruct st as [m f pre post|m]; cbn [minv mspec mdeliv mmsg st_rest] in *.
+  - (* inside a frame *)
+    rewrite reader_read_eq, (m_frame _ _ _ _ _ _ _ _ Hinv).
+    pose proof (m_src _ _ _ _ _ _ _ _ Hinv) as (Hw & _).
+    destruct (rgo_step c m f pre post lg rest r kk Hc Hinv Hk)
+      as [(d & post' & r' & Hr & Hdp & HM & Hmu)|[(r' & Hr & HB & Hmu & Hsp)|[(r' & Hr & HB & Hcp & Hle & Hsp)|(d & r' & Hr & Hlg & Hsp)]]].
+    + left. exists d, r', (MMid m f (pre ++ d) post'), [], rest. cbn [minv mspec mmsg st_rest]. rewrite app_nil_r.
+      split; [exact Hr|]. split; [exact HM|]. split; [reflexivity|]. split; [reflexivity|].
+      split; [exact Hmu|]. split; [constructor|]. split; [reflexivity|]. split; [intros m0 X; discriminate X|].
+      intros k evs. exists k. rewrite app_nil_r. reflexivity.
+    + left. exists post, r', (MBet (msg_after m f)), [], rest. cbn [minv mspec mmsg st_rest]. rewrite app_nil_r.
+      pose proof (fin_of_state _ _ _ _ _ _ _ _ _ _ _ _ _ _ Hinv Hr HB) as Hfin. cbn [is_some negb] in Hfin.
+      split; [exact Hr|]. split; [exact HB|]. split; [reflexivity|]. split; [reflexivity|].
+      split; [exact Hmu|]. split; [constructor|]. split; [rewrite Hfin; reflexivity|]. split.
+      { intros m0 _. pose proof (b_msg _ _ _ _ _ HB) as (Hfr' & _).
+        exact (rgo_rawN kk r post r' Hw Hk (m_frame _ _ _ _ _ _ _ _ Hinv) Hr Hfr'). }
+      intros k evs. exists (S k). rewrite app_nil_r. apply Hsp.
+    + right; left. exists post, r'.
+      pose proof (fin_of_state _ _ _ _ _ _ _ _ _ _ _ _ _ _ Hinv Hr HB) as Hfin. cbn [is_some negb] in Hfin.
+      rewrite Hfin. split; [exact Hr|]. split; [exact HB|]. split; [exact Hcp|exact Hle].
+    + right; right. exists d, RInvalidUtf8, r'. split; [exact Hr|]. split; [discriminate|].
+      intros k evs. exists [], OInvalidUtf8. split; [apply Hsp|discriminate].
+  - (* between two fragments: the next header first *)
+    pose proof (b_msg _ _ _ _ _ Hinv) as (Hfr & _). cbn [is_some] in *.
+    rewrite reader_read_eq, Hfr, (b_state _ _ _ _ _ Hinv), st_frag_set. cbn [negb is_some].
+    destruct rest as [|f rest].
+    + destruct (next_frame_eof c (Some m) lg r Hinv) as (h & r' & Hnf & Hlg). rewrite Hnf. cbn [is_some].
+      right; right. exists [], (RIo EUnexpected), r'. split; [reflexivity|]. split; [discriminate|].
+      intros k evs. rewrite spec_run_nil. cbn [is_some]. do 2 eexists. split; [reflexivity|discriminate].
+    + pose proof (next_frame_facts c (Some m) lg f rest r Hc Hinv) as F.
+      destruct (next_frame_spec c (Some m) lg f rest r Hc Hinv) as (h & e & r1 & Hnf & H). rewrite Hnf in F |- *.
+      cbn [is_some andb] in F.
+      destruct e as [err|].
+      * destruct H as (Hlg & Hsp). right; right. exists [], err, r1. split; [reflexivity|].
+        split.
+        { intros ->. destruct (Hsp 0%nat []) as (out & _ & Hem & _ & Hnc).
+          destruct out; cbn [err_matches] in Hem; try discriminate. apply Hnc; reflexivity. }
+        intros k evs. destruct (Hsp k evs) as (out & Heq & _ & _ & Hnc). do 2 eexists. split; [exact Heq|exact Hnc].
+      * destruct (check_header (sf_header f) (set_fragmented (c_state c) true)) as [rl0|] eqn:Hck;
+          [discriminate F|]. destruct F as [_ F]. specialize (F eq_refl).
+        destruct H as (Hlen & [(m0 & Hm0 & Hfr1 & HB & Hsp)|(Hop & HM & Hsp)]).
+        -- (* control frame in between *)
+           rewrite Hfr1 in F |- *.
+           assert (Hctl: spec_control (sf_op f) = true)
+             by (destruct (spec_control (sf_op f)); [reflexivity|discriminate F]).
+           injection Hm0 as <-. left.
+           exists [], r1, (MBet m), [mkEv (sf_op f) (sf_payload f) true (m_comp m)], rest.
+           cbn [minv mspec mmsg st_rest after_msg]. rewrite Hctl.
+           split; [reflexivity|]. split; [exact HB|]. split; [reflexivity|]. split; [reflexivity|]. split.
+           { unfold mu. rewrite Hfr, Hfr1. clear -Hlen. lia. }
+           split; [repeat constructor|]. split; [reflexivity|].
+           split; [intros m0 _; exact (next_frame_ctl_rawN _ _ _ Hnf Hfr1)|].
+           intros k evs. exists (S k). apply Hsp.
+        -- (* next fragment: its first Read happens in the same call *)
+           cbn [msg_of] in *. rewrite (m_frame _ _ _ _ _ _ _ _ HM) in F |- *.
+           assert (Hctl: spec_control (sf_op f) = false)
+             by (destruct (spec_control (sf_op f)); [discriminate F|reflexivity]).
+           pose proof (m_pay _ _ _ _ _ _ _ _ HM) as Hpay. cbn [app] in Hpay.
+           pose proof (m_src _ _ _ _ _ _ _ _ HM) as (Hw1 & _).
+           assert (Hmu1: (mu r1 < mu r)%nat).
+           { unfold mu. rewrite Hfr, (m_frame _ _ _ _ _ _ _ _ HM). clear -Hlen. lia. }
+           cbn [after_msg]. rewrite Hctl.
+           destruct (rgo_step c m f [] (sf_payload f) lg rest r1 kk Hc HM Hk)
+             as [(d & post' & r' & Hr & Hdp & HM' & Hmu)|[(r' & Hr & HB & Hmu & Hsp')|[(r' & Hr & HB & Hcp & Hle & Hsp')|(d & r' & Hr & Hlg & Hsp')]]].
+           ++ left. exists d, r', (MMid m f ([] ++ d) post'), [], rest. cbn [minv mspec mmsg st_rest]. rewrite app_nil_r.
+              split; [exact Hr|]. split; [exact HM'|]. split; [reflexivity|].
+              split; [reflexivity|]. split; [clear -Hmu Hmu1; lia|]. split; [constructor|].
+              split; [reflexivity|]. split; [intros m0 X; discriminate X|].
+              intros k evs. exists k. rewrite app_nil_r. apply Hsp.
+           ++ left. exists (sf_payload f), r', (MBet (msg_after m f)), [], rest. cbn [minv mspec mmsg st_rest].
+              rewrite app_nil_r.
+              pose proof (fin_of_state _ _ _ _ _ _ _ _ _ _ _ _ _ _ HM Hr HB) as Hfin. cbn [is_some negb] in Hfin.
+              split; [exact Hr|]. split; [exact HB|]. split; [reflexivity|].
+              split; [reflexivity|]. split; [clear -Hmu Hmu1; lia|]. split; [constructor|].
+              split; [rewrite Hfin; reflexivity|]. split.
+              { intros m0 _. pose proof (b_msg _ _ _ _ _ HB) as (Hfr' & _).
+                exact (rgo_rawN kk r1 _ r' Hw1 Hk (m_frame _ _ _ _ _ _ _ _ HM) Hr Hfr'). }
+              intros k evs. exists (S k). rewrite app_nil_r, Hsp. apply Hsp'.
+           ++ right; left. exists (sf_payload f), r'.
+              pose proof (fin_of_state _ _ _ _ _ _ _ _ _ _ _ _ _ _ HM Hr HB) as Hfin. cbn [is_some negb] in Hfin.
+              rewrite Hfin. split; [exact Hr|]. split; [exact HB|]. split; [exact Hcp|].
+              unfold mu in Hmu1. rewrite Hfr, (m_frame _ _ _ _ _ _ _ _ HM) in Hmu1. clear -Hle Hmu1. lia.
+           ++ right; right. exists d, RInvalidUtf8, r'. split; [exact Hr|]. split; [discriminate|].
+              intros k evs. exists [], OInvalidUtf8. split; [rewrite Hsp; apply Hsp'|discriminate].
+Qed.
+
+(* reading the current message to io.EOF on a stream the spec accepts *)
+
+Lemma discardP2 c : wf_cfg c -> forall fuel st lg rest rn fr s0 k evs,
+  minv c st lg rest rn -> (forall m, st = MBet m -> r_rawN rn = 0) ->
+  (length (flat (r_src rn)) < fuel)%nat ->
+  Pm evs (mspec c k st evs rest) ->
+  dresP c (discard fuel (with_fix rn fr s0)) lg (st_rest st rest) (m_comp (mmsg st)) (spec_control (m_op (mmsg st))).
+Proof.
+  intros Hc. induction fuel as [|fuel IH]; intros st lg rest rn fr s0 k evs Hinv Hraw Hfuel Hclean; [lia|].
+  (* after the drain, between two fragments *)
+  assert (C: forall m lg rest r1n fr st k evs, Bnd c (Some m) lg rest r1n ->
+     (length (flat (r_src r1n)) < S fuel)%nat -> Pm evs (spec_run c k (Some m) evs rest) ->
+     dresP c (let '((_, e2), r2) := next_frame (with_fix r1n fr st) in
+              match e2 with Some e2 => (Some e2, reset r2) | None => discard fuel r2 end)
+           lg (after_msg rest) (m_comp m) (spec_control (m_op m))).
+  { clear - Hc IH. intros m lg rest r1n fr st k evs HB Hf Hclean.
+    destruct (next_frame_fix r1n fr st) as [fr' E]. rewrite E. clear E.
+    destruct rest as [|f rest].
+    - exfalso. rewrite spec_run_nil in Hclean. cbn [is_some] in Hclean. refine (Pm_stop _ _ _ _ Hclean); discriminate.
+    - pose proof (next_frame_facts c (Some m) lg f rest r1n Hc HB) as F.
+      destruct (next_frame_spec c (Some m) lg f rest r1n Hc HB) as (h & e & r2 & Hnf & H). rewrite Hnf in F |- *.
+      cbn [fst snd is_some andb] in *.
+      destruct e as [err|].
+      + exfalso. destruct H as (_ & Hsp). destruct (Hsp k evs) as (out & Heq & _ & _ & Hnc).
+        rewrite Heq in Hclean. exact (Pm_stop _ _ _ Hnc Hclean).
+      + destruct (check_header (sf_header f) (set_fragmented (c_state c) true)) as [rl0|] eqn:Hck;
+          [discriminate F|]. destruct F as [_ F]. specialize (F eq_refl).
+        destruct H as (Hlen & [(m0 & Hm0 & Hfr1 & HB2 & Hsp)|(Hop & HM & Hsp)]).
+        * injection Hm0 as <-. rewrite Hsp in Hclean.
+          rewrite Hfr1 in F.
+          assert (Hctl: spec_control (sf_op f) = true)
+            by (destruct (spec_control (sf_op f)); [reflexivity|discriminate F]).
+          pose proof (next_frame_ctl_rawN _ _ _ Hnf Hfr1) as Hr0.
+          destruct (IH (MBet m) _ rest r2 fr' st (S k) _ HB2 ltac:(intros; exact Hr0) ltac:(lia)
+                       (Pm_inter _ [mkEv (sf_op f) (sf_payload f) true (m_comp m)] _ ltac:(repeat constructor) Hclean))
+            as (mid & r' & Hd & HB' & Hmid & Hcp).
+          exists ([mkEv (sf_op f) (sf_payload f) true (m_comp m)] ++ mid), r'.
+          cbn [after_msg]. rewrite Hctl.
+          split; [exact Hd|]. rewrite app_assoc. split; [exact HB'|].
+          split; [constructor; [reflexivity|exact Hmid]|exact Hcp].
+        * cbn [msg_of] in *. rewrite Hsp in Hclean. rewrite (m_frame _ _ _ _ _ _ _ _ HM) in F.
+          assert (Hctl: spec_control (sf_op f) = false)
+            by (destruct (spec_control (sf_op f)); [discriminate F|reflexivity]).
+          destruct (IH (MMid m f [] (sf_payload f)) lg rest r2 fr' st k evs HM ltac:(intros; discriminate) ltac:(lia) Hclean)
+            as (mid & r' & Hd & HB' & Hmid & Hcp).
+          exists mid, r'. cbn [after_msg]. rewrite Hctl. cbn [st_rest mmsg] in *.
+          split; [exact Hd|]. split; [exact HB'|]. split; [exact Hmid|exact Hcp]. }
+  cbn [discard]. rewrite raw_drain_fix.
+  destruct st as [m f pre post|m]; cbn [minv mspec st_rest mmsg] in *.
+  - (* inside a frame: drain it *)
+    pose proof Hinv as [Hcfg (Hw & Ht & Hfl) Hwf Hf Hpay Hwacc Hlog Hst Hfr Hopc Hcompr Hnoext Hctlfin HrawN Hmk Hkey Hwrap Hu8].
+    destruct (drain_ok rn (wpay f (len pre) post) (wire rest) Hw Hfl ltac:(rewrite HrawN, len_wpay; reflexivity))
+      as (r1 & Hdr & Hw1 & Ht1 & Hf1 & Hr1 & Hsame).
+    rewrite Hdr. cbn [fst snd].
+    destruct Hsame as (S1 & S2 & S3 & S4 & S5 & S6 & S7 & S8 & S9 & S10 & S11).
+    assert (Hlen1: (length (flat (r_src r1)) <= length (flat (r_src rn)))%nat).
+    { rewrite Hf1, Hfl, app_length. clear. lia. }
+    assert (Hcfg1: cfg_ok c r1).
+    { unfold cfg_ok in *. rewrite S2, S3, S4, S5, S7. exact Hcfg. }
+    change (r_state (with_fix r1 fr s0)) with (r_state r1). rewrite S1, Hst, st_frag_set, negb_involutive.
+    destruct m as [[o a] cm]. cbn [m_op m_acc m_comp fst snd] in *.
+    unfold spec_data in Hclean.
+    destruct (wrap_of c o && negb (if sf_fin f then valid_utf8 (a ++ sf_payload f) else utf8_viable (a ++ sf_payload f))) eqn:Hu;
+      [exfalso; refine (Pm_stop _ _ _ _ Hclean); discriminate|].
+    destruct (sf_fin f) eqn:Hfin.
+    + (* last fragment *)
+      exists [], (reset r1).
+      split; [reflexivity|]. rewrite app_nil_r. split.
+      { constructor; rsimpl; cbn [is_some].
+        - exact Hcfg1.
+        - unfold src_ok; rsimpl. repeat split; [exact Hw1|congruence|exact Hf1].
+        - exact Hwf.
+        - congruence.
+        - rewrite S1, Hst. reflexivity.
+        - rewrite S6. exact Hnoext.
+        - reflexivity. }
+      split; [constructor|]. rsimpl. rewrite S6. exact Hcompr.
+    + (* more fragments follow *)
+      set (m' := (o, a ++ sf_payload f, cm)).
+      set (stg := if wrap_of c o then u8_run 0 (a ++ sf_payload f) else 0).
+      assert (Hwfacc': wf_bytes (a ++ sf_payload f)) by (apply wf_bytes_app; split; [exact Hwacc|apply Hf]).
+      assert (Hnctl: spec_control o = false).
+      { destruct (spec_control o); [|reflexivity]. specialize (Hctlfin eq_refl). discriminate. }
+      assert (HB1: Bnd c (Some m') lg rest (with_fix r1 false stg)).
+      { constructor; fsimpl; cbn [is_some m_op m_acc m_comp fst snd].
+        - exact Hcfg1.
+        - unfold src_ok; fsimpl. repeat split; [exact Hw1|congruence|exact Hf1].
+        - exact Hwf.
+        - congruence.
+        - rewrite S1, Hst. reflexivity.
+        - rewrite S6. exact Hnoext.
+        - unfold m'. cbn [m_op m_acc m_comp fst snd]. split; [reflexivity|]. split; [congruence|]. split.
+          { rewrite S6. destruct Hcompr as [Hx|Hx]; [exact Hx|congruence]. }
+          split; [|split; assumption].
+          unfold u8_ok; fsimpl. split; [reflexivity|]. unfold stg. destruct (wrap_of c o) eqn:Hwr.
+          + cbn [andb] in Hu. rewrite utf8_viable_dfa in Hu by exact Hwfacc'. split.
+            * intros E. rewrite E in Hu. discriminate Hu.
+            * apply run_states; [exact Hwfacc'|simpl; tauto].
+          + split; [discriminate|simpl; tauto]. }
+      change (with_fix r1 fr s0) with (with_fix (with_fix r1 false stg) fr s0).
+      assert (Hfu1: (length (flat (r_src (with_fix r1 false stg))) < S fuel)%nat) by (fsimpl; clear -Hlen1 Hfuel; lia).
+      destruct (C m' lg rest (with_fix r1 false stg) fr s0 (S k) evs HB1 Hfu1 Hclean)
+        as (mid & r' & Hd & HB' & Hmid & Hcp).
+      exists mid, r'. split; [exact Hd|]. split; [exact HB'|]. split; [exact Hmid|exact Hcp].
+  - (* between two fragments: nothing to drain *)
+    specialize (Hraw m eq_refl).
+    pose proof Hinv as [Hcfg (Hw & Ht & Hfl) Hwf Hlog Hst Hcz Hmsg].
+    destruct (drain_ok rn [] (wire rest) Hw Hfl Hraw) as (r1 & Hdr & Hw1 & Ht1 & Hf1 & Hr1 & Hsame).
+    rewrite Hdr. cbn [fst snd].
+    destruct Hsame as (S1 & S2 & S3 & S4 & S5 & S6 & S7 & S8 & S9 & S10 & S11).
+    assert (HB1: Bnd c (Some m) lg rest r1).
+    { constructor.
+      - unfold cfg_ok in *. rewrite S2, S3, S4, S5, S7. exact Hcfg.
+      - unfold src_ok. repeat split; [exact Hw1|congruence|exact Hf1].
+      - exact Hwf.
+      - congruence.
+      - congruence.
+      - rewrite S6. exact Hcz.
+      - unfold u8_ok in *. rewrite S9, S8, S6, S10. exact Hmsg. }
+    change (r_state (with_fix r1 fr s0)) with (r_state r1). rewrite S1, Hst, st_frag_set. cbn [is_some negb].
+    assert (Hfu1: (length (flat (r_src r1)) < S fuel)%nat) by (rewrite Hf1; rewrite Hfl in Hfuel; exact Hfuel).
+    exact (C m lg rest r1 fr s0 k evs HB1 Hfu1 Hclean).
+Qed.
+
+
+
+Definition PInv2 (c : rcfg) (target : list sframe) (cm : bool) (r : reader) : Prop :=
+  (exists st lg rest k evs, minv c st lg rest r /\ (forall m, st = MBet m -> r_rawN r = 0) /\
+      st_rest st rest = target /\ Pm evs (mspec c k st evs rest) /\
+      spec_control (m_op (mmsg st)) = false /\ m_comp (mmsg st) = cm) \/
+  (exists lg, Bnd c None lg target r /\ at_rest r /\ r_compressed r = cm).
+
+Lemma pinv2_step c target cm : wf_cfg c -> forall kk r, 0 < kk -> PInv2 c target cm r ->
+  PInv2 c target cm (snd (reader_read kk r)).
+Proof.
+  intros Hc kk r Hkk HP.
+  destruct HP as [(st & lg & rest & k & evs & Hinv & Hraw & Hpos & Hcl & Hnctl & Hcm)|(lg & HB & Hrest & Hcm)].
+  - destruct (read_stepP2 c st lg rest r kk Hc Hinv Hkk)
+      as [(d & r' & st' & mid & rest' & Hr & Hinv' & Hopq & Hcmq & _ & Hmid & Hpos' & Hraw' & Hsp)
+         |[(d & r' & Hr & HB & Hcp & _)|(d & err & r' & Hr & _ & Hsp)]]; rewrite Hr; cbn [snd].
+    + left. destruct (Hsp k evs) as (k' & Heq).
+      exists st', (lg ++ mid), rest', k', (evs ++ mid).
+      split; [exact Hinv'|]. split; [exact Hraw'|]. split; [congruence|].
+      split; [rewrite <- Heq; apply Pm_inter; assumption|]. split; congruence.
+    + right. exists lg. rewrite <- Hpos.
+      split; [exact HB|]. split; [exact (read_eof_at_rest _ _ _ _ Hr)|].
+      destruct Hcp as [Hcp|Hcp]; congruence.
+    + exfalso. destruct (Hsp k evs) as (pt & out & Heq & Hnc). rewrite Heq in Hcl. exact (Pm_stop _ _ _ Hnc Hcl).
+  - destruct (at_rest_fields r Hrest) as (_ & Hfr & _). pose proof Hrest as [_ Hnf].
+    rewrite reader_read_eq, Hfr, Hnf. cbn [negb snd]. right. exists lg. split; [exact HB|split; [exact Hrest|exact Hcm]].
+Qed.
+
+Lemma pinv2_reads c target cm : wf_cfg c -> forall ks r, PInv2 c target cm r ->
+  PInv2 c target cm (snd (run_script (map OpRead ks) r)).
+Proof.
+  intros Hc. induction ks as [|k ks IH]; intros r HP; [exact HP|].
+  cbn [map run_script].
+  assert (Hkk: 0 < (if k =? 0 then 1 else k)) by (destruct (k =? 0) eqn:E; lia).
+  pose proof (pinv2_step c target cm Hc _ r Hkk HP) as H1.
+  destruct (reader_read (if k =? 0 then 1 else k) r) as [[d e] r1]. cbn [snd] in H1.
+  specialize (IH r1 H1). destruct (run_script (map OpRead ks) r1) as [os r2]. exact IH.
+Qed.
+
+Lemma pinv2_discard c target cm r : wf_cfg c -> PInv2 c target cm r ->
+  exists r3 lg, discard (S (length (flat (r_src r)))) r = (None, r3) /\ Bnd c None lg target r3 /\ at_rest r3 /\
+    r_compressed r3 = cm.
+Proof.
+  intros Hc HP.
+  destruct HP as [(st & lg & rest & k & evs & Hinv & Hraw & Hpos & Hcl & Hnctl & Hcm)|(lg & HB & Hrest & Hcm)].
+  - pose proof (discardP2 c Hc (S (length (flat (r_src r)))) st lg rest r (r_frame r) (r_u8state r) k evs
+                  Hinv Hraw ltac:(lia) Hcl) as D.
+    rewrite with_fix_id in D. destruct D as (mid & r' & Hd & HB & _ & Hcp).
+    exists r', (lg ++ mid). split; [exact Hd|]. rewrite <- Hpos. split; [exact HB|].
+    split; [exact (discard_at_rest _ _ _ Hd)|]. destruct Hcp as [Hcp|Hcp]; congruence.
+  - destruct (discard_at_boundary c lg target r (length (flat (r_src r))) HB Hrest) as (r' & Hd & HB' & Hc').
+    exists r', lg. split; [exact Hd|]. split; [exact HB'|]. split; [exact (discard_at_rest _ _ _ Hd)|congruence].
+Qed.
+
+(* ------------------------------------------------------------------ C18, Discard after ErrInvalidUTF8, sharp hypothesis *)
+Theorem reader_discard_after_invalid_first_ok : forall c rsv0 op k0 p0 l rest s ks k o0 outs d r1,
+  let m1 := msg_frames_rsv rsv0 op k0 p0 l in
+  let flag := c_ext c && rsv1_bit rsv0 in
+  wf_cfg c -> c_check_utf8 c = true -> (op = 1 \/ op = 2) -> Forall wf_sframe (m1 ++ rest) ->
+  Forall (fun x => Forall (fun f => ctl_ok f = true) (fr_ctl x)) l ->
+  first_message_ok c (m1 ++ rest) ->
+  wf_src s -> tl s = TEOF -> flat s = wire (m1 ++ rest) ->
+  let r0 := new_reader s (c_state c) false (c_check_utf8 c) (c_max c) (c_ext c) CbReadAll in
+  run_script (OpNext :: map OpRead ks ++ [OpRead k]) r0 = (o0 :: outs ++ [OutRead d (Some RInvalidUtf8)], r1) ->
+  Forall not_invalid outs ->
+  exists r2, run_script [OpDiscard] r1 = ([OutDiscard None], r2) /\ reads_on_as_new c rest flag r2.
+Proof.
+  intros c rsv0 op k0 p0 l rest s ks k o0 outs d r1 m1 flag Hc Hchk Hop Hfs Hctl Hfirst Hw Ht Hfl r0 Hrun Hok.
+  set (cn := no_utf8 c) in *.
+  pose proof (wf_cfg_no_utf8 c Hc) as Hcn. fold cn in Hcn.
+  pose proof (after_first_msg rsv0 op k0 p0 l rest Hctl) as Haf. fold m1 in Haf.
+  assert (Hshape: exists f ftl, m1 ++ rest = f :: ftl /\ spec_control (sf_op f) = false /\ c_ext c && rsv1 f = flag).
+  { unfold m1, msg_frames_rsv. cbn [app]. do 2 eexists. split; [reflexivity|]. cbn [sf_op].
+    split; [destruct Hop as [-> | ->]; reflexivity|reflexivity]. }
+  destruct Hshape as (f & tl0 & Heq & Hnctl & Hflag). rewrite Heq in *.
+  assert (HPm: Pm [] (spec_run cn 0 None [] (f :: tl0))).
+  { destruct Hfirst as [X|X]; [left; exact X|right]. unfold messages_of in X. fold cn in X. unfold cnt. cbn [filter length].
+    destruct (filter _ _); [contradiction|cbn [length]; lia]. }
+  (* the Reader with CheckUTF8 off: NextFrame *)
+  set (r0n := new_reader s (c_state cn) false (c_check_utf8 cn) (c_max cn) (c_ext cn) CbReadAll).
+  pose proof (new_reader_bnd cn (f :: tl0) s Hcn Hfs Hw Ht Hfl) as HBn. fold r0n in HBn.
+  destruct (next_frame_spec cn None [] f tl0 r0n Hcn HBn) as (hn & e & r1n & Hnfn & Hsp).
+  destruct e as [err|].
+  { exfalso. destruct Hsp as (_ & Hsp). destruct (Hsp 0%nat []) as (out & Heq0 & _ & _ & Hnc).
+    rewrite Heq0 in HPm. exact (Pm_stop _ _ _ Hnc HPm). }
+  destruct Hsp as (_ & [(m0 & Hm0 & _)|(_ & HM & Hspd)]); [discriminate|].
+  assert (HP: PInv2 cn (after_first (f :: tl0)) (c_ext cn && rsv1 f) r1n).
+  { left. exists (MMid (msg_of cn None f) f [] (sf_payload f)), [], tl0, 0%nat, [].
+    split; [exact HM|]. split; [intros m X; discriminate X|]. split; [reflexivity|].
+    split; [cbn [mspec]; rewrite <- Hspd; exact HPm|]. split; [exact Hnctl|reflexivity]. }
+  (* lock step *)
+  assert (S0: simR r0 r0n).
+  { unfold r0, r0n, cn, new_reader, simR, simD. rsimpl. rewrite Hchk. cbn [no_utf8 c_state c_check_utf8 c_max c_ext].
+    repeat split; reflexivity. }
+  destruct (next_frame_simR r0 r0n S0) as [E1 S1]. rewrite Hnfn in E1, S1. cbn [fst snd] in E1, S1.
+  change (OpNext :: map OpRead ks ++ [OpRead k]) with ([OpNext] ++ (map OpRead ks ++ [OpRead k])) in Hrun.
+  cbn [app run_script] in Hrun.
+  destruct (next_frame r0) as [[h0 e0] ra]. cbn [fst snd] in E1, S1. injection E1 as -> ->.
+  rewrite run_script_app in Hrun.
+  destruct (run_script (map OpRead ks) ra) as [oa rb] eqn:HA.
+  cbn [run_script] in Hrun.
+  set (kk := if k =? 0 then 1 else k) in *.
+  assert (Hkk: 0 < kk) by (unfold kk; destruct (k =? 0) eqn:E; lia).
+  destruct (reader_read kk rb) as [[dd ee] rc] eqn:HB.
+  injection Hrun as <- Houts <-.
+  apply app_inj_tail in Houts. destruct Houts as [-> Hlast]. injection Hlast as -> ->.
+  destruct (reads_simR ks ra r1n outs rb S1 HA Hok) as [_ S2].
+  pose proof (pinv2_reads cn _ _ Hcn ks r1n HP) as HP2.
+  set (rbn := snd (run_script (map OpRead ks) r1n)) in *.
+  pose proof (pinv2_step cn _ _ Hcn kk rbn Hkk HP2) as HP3.
+  assert (S3: simD rc (snd (reader_read kk rbn))).
+  { destruct (reader_read_simR kk rb rbn S2) as [[_ X]|[_ X]]; rewrite HB in X; cbn [snd] in X;
+      [exact X|exact (simR_D _ _ X)]. }
+  set (rcn := snd (reader_read kk rbn)) in *.
+  destruct (pinv2_discard cn _ _ rcn Hcn HP3) as (r2n & lg & HDn & HBn2 & Hrestn & Hcmn).
+  destruct (simD_fields _ _ S3) as (Hsrc & _).
+  destruct (discard_simD (S (length (flat (r_src rcn)))) rc rcn S3) as [E4 S4]. rewrite HDn in E4, S4. cbn [fst snd] in E4, S4.
+  cbn [run_script]. rewrite Hsrc.
+  destruct (discard (S (length (flat (r_src rcn)))) rc) as [eD2 r2] eqn:HD. cbn [fst snd] in E4, S4. subst eD2.
+  exists r2. split; [reflexivity|].
+  pose proof (discard_at_rest _ _ _ HD) as Hrest2.
+  pose proof (bnd_transfer c lg _ r2 r2n Hchk HBn2 S4 Hrest2) as HB2.
+  pose proof (bnd_as_new c lg _ r2 Hc HB2 Hrest2) as R.
+  destruct S4 as (_ & _ & _ & _ & _ & S46 & _).
+  rewrite S46, Hcmn in R. change (c_ext cn) with (c_ext c) in R. rewrite Hflag, Haf in R. exact R.
+Qed.
